@@ -13,8 +13,11 @@ KANI_BASE = ["cargo", "kani", "-Z", "unstable-options", "--ignore-global-asm", "
 
 
 def _target_dir(repo):
-    # one target dir for every checkout: dependencies are shared, engeom itself is keyed by its path
-    return os.path.join(CACHE, "kani-target")
+    # /repo has its own target dir; a scratch checkout gets a private one (two cargo-kani runs in one target dir
+    # corrupt each other's goto binaries); seeded/benign runners delete it afterwards
+    if os.path.realpath(repo) == "/repo":
+        return os.path.join(CACHE, "kani-target")
+    return os.path.join(CACHE, "kani-target-" + hashlib.sha1(os.path.realpath(repo).encode()).hexdigest()[:8])
 
 
 def _env():
